@@ -20,7 +20,7 @@ BOUNDS = {
     "quick": "25 classes x {no option, each single option, all options} with free 53-bit ids and free numeric options; batches of N <= 3 blobs with lengths 0..2 per batched serializer incl. truncated/garbled batches; cache across two serializers; real codecs on boundary values (0, 1, 2^53, unicode, binary, nested) for every class with all options",
     "thorough": "additionally all pairs of options per class; N <= 4, lengths 0..3",
 }
-EXPECT_COVERS = ["rt:bare", "rt:single", "rt:all", "batch:ok", "batch:malformed", "cache", "real:json", "real:msgpack", "real:cbor", "real:ubjson", "binflag"]
+EXPECT_COVERS = ["real:payload", "rt:bare", "rt:single", "rt:all", "batch:ok", "batch:malformed", "cache", "real:json", "real:msgpack", "real:cbor", "real:ubjson", "binflag"]
 BUDGET = {"quick": dict(wall_s=300, max_paths=20000, diff_samples=2), "thorough": dict(wall_s=2400, diff_samples=2)}
 
 
@@ -82,8 +82,23 @@ class TableCodec:
         return self.table[key]
 
 
+_ORIG = {}
+
+
+def _restore_codecs():
+    """units that want the REAL codec libraries: undo a table-codec patch left behind by an earlier unit of the same interpreter
+    (plain-mode replays and the differential run several units per process)"""
+    import autobahn.wamp.serializer as ser
+    for k, v in _ORIG.items():
+        setattr(ser, k, v)
+
+
 def _patch_codecs(lens):
     import autobahn.wamp.serializer as ser
+    if not _ORIG:
+        for k in ("_dumps", "_loads", "_packb", "_unpackb", "_cbor_dumps", "_cbor_loads", "ubjson"):
+            if hasattr(ser, k):
+                _ORIG[k] = getattr(ser, k)
     cod = {}
     cod["json"] = TableCodec("j", lens, True)
     ser._dumps, ser._loads = cod["json"].dumps, cod["json"].loads
@@ -101,6 +116,8 @@ def _patch_codecs(lens):
 
 def _serializer(ser_id, batched):
     import autobahn.wamp.serializer as ser
+    if ser_id == "json-hex":
+        return ser.JsonSerializer(batched=batched, use_binary_hex_encoding=True)
     cls = {"json": "JsonSerializer", "msgpack": "MsgPackSerializer", "cbor": "CBORSerializer", "ubjson": "UBJSONSerializer"}[ser_id]
     if not hasattr(ser, cls):
         return None
@@ -193,6 +210,7 @@ class _Conc:
 
 def real_codec(sx, ser_id, batched, cname, pick):
     from autobahn.wamp import message
+    _restore_codecs()
     s = _serializer(ser_id, batched)
     if s is None:
         return ["missing"]
@@ -215,10 +233,57 @@ def real_codec(sx, ser_id, batched, cname, pick):
     return [ser_id, cname]
 
 
+PAYLOAD_VALUES = [b"", b"\x00", b"ab\xff", "", "plain", "\u00e9\u4e2d", 0, -1, 1, 2 ** 53, -2 ** 53, 1.5, None, True, False, [], {}, [[]], {"k": []}]
+
+
+def real_payload(sx, ser_id, batched, cname):
+    """application payload boundary values (empty / one-octet binaries, empty strings and containers, integer limits, nesting) through the real
+    codec in every constructor mode of the serializer: what comes back is equal in value AND type, wherever it sits in args / kwargs"""
+    from autobahn.wamp import message
+    _restore_codecs()
+    s = _serializer(ser_id, batched)
+    if s is None:
+        return ["missing"]
+    bad = []
+    for i, v in enumerate(PAYLOAD_VALUES):
+        args = [v, [v], {"n": v}]
+        kwargs = {"k": v, "deep": {"l": [v, v]}}
+        if cname == "Event":
+            m = message.Event(7, 8, args=args, kwargs=kwargs)
+        elif cname == "Call":
+            m = message.Call(7, "com.myapp.proc", args=args, kwargs=kwargs)
+        else:
+            m = message.Error(message.Call.MESSAGE_TYPE, 7, "com.myapp.error", args=args, kwargs=kwargs)
+        data, is_bin = s.serialize(m)
+        if batched:
+            data = data + s.serialize(m)[0]
+        back = s.unserialize(data, is_bin)
+        ok = len(back) == (2 if batched else 1) and all(_same_typed(b.args, args) and _same_typed(b.kwargs, kwargs) for b in back)
+        if not ok:
+            bad.append((repr(v), repr(back[0].args)[:80] if back else None))
+    sx.check(not bad, "real-codec:payload-values-and-types-preserved", info=dict(ser=ser_id, batched=batched, cls=cname, bad=bad[:4]))
+    sx.cover("real:payload")
+    return [ser_id, len(bad)]
+
+
+def _same_typed(a, b):
+    if type(a) is not type(b) and not (isinstance(a, (list, tuple)) and isinstance(b, (list, tuple))):
+        return False
+    if isinstance(a, (list, tuple)):
+        return len(a) == len(b) and all(_same_typed(x, y) for x, y in zip(a, b))
+    if isinstance(a, dict):
+        return set(a) == set(b) and all(_same_typed(a[k], b[k]) for k in a)
+    return a == b
+
+
 def units(tier):
     U = []
     q = tier == "quick"
     import itertools
+    for ser_id in ("json", "json-hex", "msgpack", "cbor", "ubjson"):
+        for batched in (False, True):
+            for cname in (("Event",) if q else ("Event", "Call", "Error")):
+                U.append(("payload/%s/%s/%s" % (ser_id, "b" if batched else "u", cname), "real_payload", dict(ser_id=ser_id, batched=batched, cname=cname)))
     C = msglib.classes()
     for cname, cls in sorted(C.items()):
         opts = msglib.optional_params(cls)
